@@ -1,7 +1,7 @@
 ----------------------------- MODULE LRU_IndRef -----------------------------
 (***************************************************************************)
 (* Refinement mapping LRU.tla -> LRU_Ind.tla, checked by TLC on the        *)
-(* constants of LRU_MC.cfg (LRU_IndRef.cfg) and LRU_MC_big.cfg:            *)
+(* constants of LRU_MC.cfg (LRU_IndRef.cfg):                               *)
 (*   InitRef    every initial state of LRU is one of LRU_Ind;              *)
 (*   StepRef    every step of LRU!Next is the step of the same method of   *)
 (*              LRU_Ind!Next;                                              *)
